@@ -5,7 +5,7 @@ of std.setMember, uniq, the sort-type classifier + stable sort, the flattenArray
 loop and std.remove refine the documented definitions, for ALL lists and EVERY key function).
 Correspondence: every generated call std.<f>(args) is (a) rendered to Jsonnet and evaluated by the
 real code through `jrharness eval`, (b) rendered to a Gallina [call] and evaluated by coqc
-(vm_compute) through [run_case] = (SPEC outcome, IMPL-MODEL outcome, judgement, known-class).
+(vm_compute) through [run_case] = (SPEC outcome, IMPL-MODEL outcome, judgement).
 Judged against SPEC where the documentation determines the outcome, against the IMPL-MODEL
 otherwise (non-set arguments, partial key functions ...).
 """
@@ -133,16 +133,6 @@ def code_out(o):
     if "err" in o:
         return ("err",)
     return ("crash", json.dumps(o)[:300])
-
-
-def drop_zero_sign(c):
-    if isinstance(c, tuple) and c and c[0] == "n" and c[1] == NEGZ_BITS:
-        return ("n", 0)
-    if isinstance(c, list):
-        return [drop_zero_sign(x) for x in c]
-    if isinstance(c, tuple) and c and c[0] == "ok":
-        return ("ok", drop_zero_sign(c[1]))
-    return c
 
 
 # ------------------------------------------------------------------ function pool
@@ -481,10 +471,6 @@ def gen_cases(run, binary_unused=None):
 
 
 # ------------------------------------------------------------------ the check
-KNOWN_SUM = "C10-sum-empty-negzero"
-KNOWN_SORT = "C10-sort-identity-unstable-signed-zero"
-
-
 MODEL_BATCH = 20
 
 
@@ -526,7 +512,7 @@ def correspond(run, binary, cases):
         if isinstance(m, tuple) and m and m[0] == "ERROR":
             run.obligation("model.eval", False, f"{call_coq(c)[:200]}: {str(m[1])[:300]}")
             continue
-        spec_t, impl_t, judge, known_sum = m
+        spec_t, impl_t, judge = m
         spec, impl, got = term_out(spec_t), term_out(impl_t), code_out(o)
         n = arr_arg_len(c)
         run.note_case(js, n >= 2 or c[0] in ("CRange", "CRepeat", "CMakeArray", "CFlattenDeep", "CDeepJoin"))
@@ -553,23 +539,9 @@ def correspond(run, binary, cases):
                                     "note": "outside the documented domain; code vs impl-model"})
             continue
         if got != spec:
-            if known_sum is True and got == impl and drop_zero_sign(got) == drop_zero_sign(spec):
-                fail("sum over no / only -0 elements is -0", spec, known=KNOWN_SUM)
-            elif (c[0] in ("CSort", "CSet") and c[2] in (None, "FId") and n > 20
-                  and drop_zero_sign(got) == drop_zero_sign(spec)):
-                fail("identity-key sort is not stable (0 / -0 reordered)", spec, known=KNOWN_SORT)
-            else:
-                fail("result differs from the documented definition", spec)
+            fail("result differs from the documented definition", spec)
         elif got != impl:
-            if known_sum is True:
-                # the code follows the documented definition on the known class (the finding no longer
-                # reproduces, e.g. fixes/C10-sum-negzero.diff was applied): not a stale-model signal
-                run.count("known-class-not-reproduced")
-                if "C10-sum-empty-negzero did not reproduce" not in " ".join(run.notes):
-                    run.notes.append("C10-sum-empty-negzero did not reproduce on " + js + " (fixed?): "
-                                     "update Model.sum_impl and drop the known class")
-            else:
-                model_diffs.append({"case": case, "model": repr(impl)[:300], "code": repr(got)[:300]})
+            model_diffs.append({"case": case, "model": repr(impl)[:300], "code": repr(got)[:300]})
         if len(run.samples) < 10 and n >= 2 and run.evaluations % 97 == 0:
             run.samples.append({"jsonnet": js, "model_call": call_coq(c), "spec": repr(spec)[:200]})
     return failures, model_diffs
@@ -588,7 +560,7 @@ def run_code(run, binary, cases, model):
     for i, m in enumerate(model):
         ok = False
         if not (isinstance(m, tuple) and m and m[0] == "ERROR"):
-            spec_t, impl_t, judge, _ = m
+            spec_t, impl_t, judge = m
             ok = (impl_t if judge == "JModel" else spec_t) != "None"
         (expect_ok if ok else single).append(i)
     batches = [expect_ok[j:j + BATCH] for j in range(0, len(expect_ok), BATCH)]
@@ -668,7 +640,7 @@ TRUSTED = ["Coq 8.16.1 kernel incl. vm_compute (no native_compute)",
            "function pool (FN_JS/FN2_JS) vs Model.apply/apply2 — itself exercised by the std.map/foldl cases",
            "IEEE division of std.avg done by Python on the exact quotient the model returns"]
 ASSUMPTIONS = ["impl-model transliterates sets.rs / sort.rs / arrays.rs loops; tie = differential run on every check",
-               "numbers in cases are small integers far apart (jrsonnet's epsilon equality is C09's finding)",
+               "numbers in cases are small integers (number equality / comparison semantics are C09's)",
                "values are fully evaluated (no erroring array elements): laziness is C03's",
                "calls whose outcome the documentation leaves open (non-set arguments of set functions, key "
                "functions undefined on an element, sums over strings, null from an array flatMap function) are "
